@@ -201,6 +201,12 @@ func c08Check(c c08Case) *kit.Verdict {
 
 	ctx, cancel := context.WithCancel(context.Background())
 	defer cancel()
+	var jw *jitterWatch
+	defer func() {
+		if jw != nil {
+			jw.Stop()
+		}
+	}()
 	o := &genericScanCmdOpts{ipFile: f.Name(), workers: c.Workers}
 	if c.Rate {
 		o.rateCount, o.rateWindow = 1000000, time.Second
@@ -252,11 +258,29 @@ func c08Check(c c08Case) *kit.Verdict {
 		if inflight != 0 || int(completed) != wantCalls {
 			return v.Failf("completion signalled with %d probes in flight and %d of %d finished", inflight, completed, wantCalls)
 		}
-		// give the result/error streams the default exit delay to drain, then cancel as the command does
+		// give the result/error streams time to drain, then cancel as the command does. This path judges the engine
+		// (once per target, completion after all probes); the timing clause - printed within the default exit delay - is
+		// judged on the startScanEngine path below. A fixed 300 ms here raised a false alarm on a saturated machine (the
+		// logger goroutine of a race-instrumented binary had not been scheduled yet), so: at least the default delay, and
+		// up to 10 s while records are still missing.
 		time.Sleep(300 * time.Millisecond)
+		wantLines := 0
+		for _, n := range wantPos {
+			wantLines += n
+		}
+		for deadline := time.Now().Add(10 * time.Second); time.Now().Before(deadline); {
+			out.mu.Lock()
+			have := bytes.Count(out.buf.Bytes(), []byte{'\n'})
+			out.mu.Unlock()
+			if have >= wantLines {
+				break
+			}
+			time.Sleep(5 * time.Millisecond)
+		}
 		cancel()
 		lwg.Wait()
 	} else {
+		jw = startJitterWatch()
 		ret := make(chan error, 1)
 		go func() {
 			ret <- startScanEngine(ctx, engine, newEngineConfig(withLogger(lg), withScanRange(&scan.Range{}),
@@ -306,6 +330,13 @@ func c08Check(c c08Case) *kit.Verdict {
 		gotPos[fmt.Sprintf("%s:%d", rec.IP, rec.Port)]++
 	}
 	if d := diffMultiset(wantPos, gotPos); d != "" {
+		if jw != nil && len(gotPos) <= len(wantPos) {
+			if late := jw.Stop(); late > 40*time.Millisecond {
+				// the machine stalled for longer than a tenth of the exit delay while the records were being written:
+				// missing records prove nothing about sx
+				return &kit.Verdict{Inconclusive: true}
+			}
+		}
 		return v.Failf("output records differ from the positive probes: %s", d)
 	}
 	lg.mu.Lock()
